@@ -211,7 +211,7 @@ pub fn c01_histogram() {
     kani::assume(m1 < 3 && m2 < 3);
     let e1 = r1.unwrap();
     let e2 = t.encode_measurement(&m2).unwrap();
-    assert_eq!(e1.len(), 2);
+    assert_eq!(e1.len(), 3);
     for i in 0..3 {
         assert!(e1[i] == if i == m1 { Field8::one() } else { Field8::zero() });
     }
